@@ -75,8 +75,11 @@ func (l *lexer) backup() {
 }
 
 func (l *lexer) peek() rune {
+	// looking ahead must leave the width of the rune read last as it is: backup() relies on it
+	w := l.width
 	r := l.next()
 	l.backup()
+	l.width = w
 	return r
 }
 
